@@ -23,6 +23,9 @@ VARIANTS = [
     B("detector-no-last", "    peak_indices = np.insert(peak_indices, len(peak_indices), len(values) - 1)\n", "    peak_indices = np.insert(peak_indices, len(peak_indices), len(values))\n", "R-IDX"),
     B("ncyc-step-1", "    n_cycs = 0.5 * np.arange(len(indys))\n", "    n_cycs = 1.0 * np.arange(len(indys))\n", "R-NCYC"),
     B("ncyc-origin-shift", "        svalue = -0.25\n", "        svalue = -0.75\n", "R-NCYC"),
+    B("f17-np-trapz-duration-stats", "            self.a_rms01 = np.sqrt(1 / self.t_b01 * trapezoid(", "            self.a_rms01 = np.sqrt(1 / self.t_b01 * np.trapz(", "R-LIBNS",
+      prop="C10", file="eqsig/single.py"),
+    B("f17-np-trapz-fourier-moment", "    return 2 * trapezoid(", "    return 2 * np.trapz(", "R-LIBNS", prop="C06", file="eqsig/fns/frequency.py"),
     B("turn-pair-shape", "diff[1:] * diff[:-1] < 0", "diff[1:] * diff[:-2] < 0", "R-IDX"),
     B("turn-pair-not-adjacent", "diff[1:] * diff[:-1] < 0", "diff[2:] * diff[:-2] < 0", "R-IDX"),
     B("turn-pair-empty", "diff[1:] * diff[:-1] < 0", "diff[1:] * diff[:-0] < 0", "R-IDX"),
